@@ -29,6 +29,12 @@ pub fn run(ctx: &mut Ctx) {
     // stream 2: exhaustive tiny files over a BOM-ish alphabet (BOM sniffing with short first chunks)
     let alpha: [u8; 9] = [0xEF, 0xBB, 0xBF, 0xFF, 0xFE, b'\n', b'a', 0x00, b'['];
     let max_len = if ctx.quick() { 4 } else { 5 };
+    let content = "osu file format v9\n[Metadata]\nTitle:t\n";
+    let tails: [Vec<u8>; 3] = [
+        content.as_bytes().to_vec(),
+        content.encode_utf16().flat_map(u16::to_le_bytes).collect(),
+        content.encode_utf16().flat_map(u16::to_be_bytes).collect(),
+    ];
     let mut idx = 0u64;
     for len in 0..=max_len {
         let total = (alpha.len() as u64).pow(len);
@@ -47,6 +53,15 @@ pub fn run(ctx: &mut Ctx) {
                 .collect();
             let mut r = ctx.rng_for(2, idx);
             one_input(ctx, 2 << 56 | idx, &bytes, "tiny-bomish", &mut r, false);
+            // the same head followed by real content in each encoding: what the head was taken for
+            // (BOM, text, line break) decides how the content is read, so a sniffing difference shows
+            if len >= 2 {
+                for (k, tail) in tails.iter().enumerate() {
+                    let mut b = bytes.clone();
+                    b.extend_from_slice(tail);
+                    one_input(ctx, 2 << 56 | (k as u64 + 1) << 48 | idx, &b, "tiny-bomish-with-content", &mut r, false);
+                }
+            }
         }
     }
     ctx.note(format!("exhaustive part: all {} byte strings of length <= {max_len} over [EF BB BF FF FE LF 'a' 00 '['] under every fixed chunk size", idx));
